@@ -2664,8 +2664,9 @@ class FileSet:
         # with the same name. Hence, we need to cover duplicated placeholders
         # so that only the first of them does group capturing.
         path_placeholders = re.findall(r"{(\w+)}", path)
+        # (the bare regex still needs parentheses, it might be an alternation)
         duplicated_placeholders = {
-            p: self._remove_group_capturing(p, placeholder[p])
+            p: "(?:" + self._remove_group_capturing(p, placeholder[p]) + ")"
             for p in path_placeholders if path_placeholders.count(p) > 1
         }
 
@@ -2733,9 +2734,8 @@ class FileSet:
         if f"(?P<{placeholder}>" not in value:
             return value
         else:
-            # The last character is the closing parenthesis. Keep a (non
-            # capturing) group: the regex might be an alternation.
-            return "(?:" + value[len(f"(?P<{placeholder}>"):-1] + ")"
+            # The last character is the closing parenthesis:
+            return value[len(f"(?P<{placeholder}>"):-1]
 
     @expects_file_info()
     def read(self, file_info, **read_args):
